@@ -136,7 +136,8 @@ def analyse(src: Source) -> List[Report]:
         "identifier or charge. R7.4: every value assigned to a leaf velocity is None, another unit's velocity (moved or "
         "copied), a zero vector, the configured initial velocity or a norm-preserving _get_new_velocity of a unit "
         "velocity (one-hot relocation or rotation by cos/sin of one angle); in-place arithmetic exists only in the "
-        "non-leaf commit routine. R7.5: the candidate time is `<unit>.time_stamp + displacement` (Time.__add__).")
+        "non-leaf commit routine. R7.5: the candidate time is `<unit>.time_stamp + displacement` (Time.__add__). R7.6: every per-component "
+        "periodic correction is applied with the index of the component its argument was computed from.")
     rep.assume("leaf collections iterated by a handler are non-empty (loops run at least once) for the register rule only")
     prog = Program(src)
     handlers = concrete_handlers(prog)
@@ -216,6 +217,9 @@ def analyse(src: Source) -> List[Report]:
             rep.ob("R7.2-position-writers", kind is not None, loc, w.stmt,
                    "a position is written outside the constructors, the global-state setter, the time-slice routine and "
                    "the cell-boundary snap: this moves a particle discontinuously")
+    from ..components import check_component_consistency
+    check_component_consistency(prog, rep, "R7.6-component-consistency")
+    rep.expect_min("R7.6-component-consistency", 4)
     rep.expect_min("R7.1-K1-slice-before-write", 12)
     rep.expect_min("R7.1-K2-grant-time", 8)
     rep.expect_min("R7.2-position-writers", 5)
@@ -283,6 +287,9 @@ MUTANTS = [
     Edit("mode switch: leaves stamped with the constructor time", EH + "root_leaf_unit_active_switcher.py",
          "cnode.value.time_stamp = copy(active_leaf_unit.time_stamp)", "cnode.value.time_stamp = Time(0.0, 0.0)", "R7.1-K2"),
 ]
+MUTANTS.append(Edit("cell boundary: image shift with the stale direction", EH + "cell_boundary_event_handler.py",
+                    "separation = setting.periodic_boundaries.next_image(separation, direction)",
+                    "separation = setting.periodic_boundaries.next_image(separation, self._direction)", "R7.6", nth=0))
 TWINS = [
     Edit("exchange velocity with locals", EH + "abstracts/abstracts.py",
          "        target_unit.velocity = active_unit.velocity\n        target_unit.time_stamp = active_unit.time_stamp\n",
